@@ -622,7 +622,15 @@ fn scenario_c09(p: Params, path: String) {
         let (cd, cs, rd) = (commits_done.clone(), commits_started.clone(), reader_done.clone());
         hs.push(shuttle::thread::spawn(move || {
             let mut last = 0u64;
-            for _ in 0..p.rounds {
+            for round in 0..p.rounds {
+                if (r + round) % 3 == 2 {
+                    // the database's own consistency check is a reader like any other: it must
+                    // not be blocked by an open writer, and must not block one
+                    probe("check_called_concurrently");
+                    if let Err(e) = db.check() {
+                        return report("sh-lost-update", "structure", format!("reader {}: DB::check while writers run reports: {}", r, e));
+                    }
+                }
                 let before = cd.load(Ordering::SeqCst);
                 let tx = match db.tx(false) {
                     Ok(t) => t,
